@@ -159,6 +159,37 @@ static void run_inifile(long shard, long nshards) {
     vc_sample("main.conf = [x=1 | @INCLUDE inc.conf | y=<${x}>], inc.conf = [[s] | x=a b]");
 }
 
+/* INI: section / key / value lengths across the 1024-byte threshold of the name-formatting buffer */
+static void run_inilong(void) {
+    int lens[] = {1, 500, 1019, 1020, 1021, 1022, 1023, 1024, 1025, 1026, 2047, 2048, 2049, 3000};
+    for (size_t a = 0; a < sizeof lens / sizeof lens[0]; a++) for (size_t b = 0; b < 4; b++) for (int withref = 0; withref < 2; withref++) {
+        int sl = lens[a], kl = lens[(a + b) % (sizeof lens / sizeof lens[0])], vl = lens[(a + 2 * b + 1) % (sizeof lens / sizeof lens[0])];
+        char key[96]; snprintf(key, sizeof key, "inilong:%d:%d:%d:%d", sl, kl, vl, withref);
+        if (!vc_case("qconfig_parse_str", key)) continue;
+        n_eval++; n_nontrivial++;
+        char *sec = malloc(sl + 1), *k = malloc(kl + 1), *v = malloc(vl + 1);
+        memset(sec, 's', sl); sec[sl] = 0; memset(k, 'k', kl); k[kl] = 0; memset(v, 'v', vl); v[vl] = 0;
+        size_t dl = sl + kl + 2 * vl + 64; char *d = malloc(dl);
+        if (withref) snprintf(d, dl, "r=%s\n[%s]\n%s=<${r}>\n", v, sec, k); else snprintf(d, dl, "[%s]\n%s=%s\n", sec, k, v);
+        qlisttbl_t *t = qconfig_parse_str(NULL, d, '=');
+        int want = withref ? 3 : 2;
+        if (!t || (int)t->size(t) != want) vc_viol("ini:entry-count", "%s: %zu entries, expected %d", key, t ? t->size(t) : 0, want);
+        else {
+            qlisttbl_obj_t *o = t->last; char *en = malloc(sl + kl + 2); sprintf(en, "%s.%s", sec, k);
+            char *ev = malloc(vl + 3); if (withref) sprintf(ev, "<%s>", v); else strcpy(ev, v);
+            if (strcmp(o->name, en) || strcmp(o->data, ev) || o->size != strlen(ev) + 1) vc_viol("ini:entry", "%s: last entry has the wrong name or value (name %zu bytes, value %zu bytes)", key, strlen(o->name), o->size);
+            o = o->prev; char *mn = malloc(sl + 2); sprintf(mn, "%s.", sec);
+            if (strcmp(o->name, mn) || strcmp(o->data, sec)) vc_viol("ini:entry", "%s: section marker entry wrong", key);
+            free(en); free(ev); free(mn);
+        }
+        if (t) t->free(t);
+        free(sec); free(k); free(v); free(d);
+        if (vc_asan_check()) vc_viol("asan:qconfig_parse_str", "%s", key);
+        vc_case_end();
+    }
+    vc_sample("[<1023..1026 x s>] / <k...>=<v...> : section-prefixed names across the 1024-byte formatting threshold");
+}
+
 /* =====================================================================  Apache style  */
 static int mfd = -1; static char mpath[64];
 static void wr(const char *s) {
@@ -452,7 +483,8 @@ static int replay(const char *key) {
         while (*p) { kinds[n++] = atoi(p); p = strchr(p, ','); if (!p) break; p++; }
         ini_case(kinds, n, layout, sep);
         printf("NOTE\tdocument:\n%s\n", doc);
-    } else if (!strncmp(key, "inifile:", 8)) run_inifile(0, 1);
+    } else if (!strncmp(key, "inilong:", 8)) run_inilong();
+    else if (!strncmp(key, "inifile:", 8)) run_inifile(0, 1);
     else if (!strncmp(key, "actype:single", 13) || !strncmp(key, "actype:count", 12)) run_actype(0);
     else if (!strncmp(key, "actype:multi", 12)) run_actype(1);
     else if (!strncmp(key, "actype:all", 10)) run_actype(2);
@@ -466,6 +498,7 @@ static int worker(int argc, char **argv) {
     const char *m = argv[1];
     if (!strcmp(m, "ini")) run_ini(atoi(argv[2]), atol(argv[3]), atol(argv[4]));
     else if (!strcmp(m, "inifile")) run_inifile(atol(argv[2]), atol(argv[3]));
+    else if (!strcmp(m, "inilong")) run_inilong();
     else if (!strcmp(m, "actype")) run_actype(atoi(argv[2]));
     else if (!strcmp(m, "acquote")) run_acquote(atoi(argv[2]), atol(argv[3]), atol(argv[4]));
     else if (!strcmp(m, "acstruct")) run_acstruct(atoi(argv[2]), atoi(argv[3]), atoi(argv[4]), atol(argv[5]), atol(argv[6]));
